@@ -9,7 +9,7 @@ Rq(cmd, nm, waiting) == [cmd |-> cmd, name |-> nm, lname |-> nm, hasname |-> nm 
             nb |-> 1, G |-> -1, nostop |-> FALSE, graceful |-> TRUE, sequential |-> FALSE, raw |-> FALSE,
             start |-> FALSE, addnp |-> 1, addG |-> 1, addW |-> 0, addsing |-> FALSE, nopts |-> 1, pattern |-> FALSE,
             opts |-> <<>>, matches |-> <<>>, file |-> <<>>, plan |-> [chg |-> <<>>, del |-> <<>>, add |-> <<>>],
-            rovalid |-> TRUE, adduid |-> "none"]
+            rovalid |-> TRUE, adduid |-> "none", arbchg |-> FALSE]
 D(cd, wg, ws) == [cd |-> cd, wg |-> wg, ws |-> ws, obeyset |-> {TRUE}]
 Stubborn(c) == [c EXCEPT !.obeyset = {FALSE}]
 Mixed(c) == [c EXCEPT !.obeyset = {TRUE, FALSE}]
